@@ -237,6 +237,10 @@ def handle (c : Case) : Res := Id.run do
   if !solved c then
     if let some m := cf then return Res.corr m tags0
     return Res.ok false tags0 "bit"
+  -- smode 7 (a row or column at the bottom of the exponent range): equilibration clauses only
+  if c.p "smode" == "7" then
+    if let some m := cf then return Res.corr m tags0
+    return Res.ok (n ≥ 2) tags0 "bit"
   -- P4: exact residuals
   let some q := equedOf? (c.p "equed") | return Res.propFalse "equed" tags0
   let fin (name : String) : Option (Array Q) := decQ? c name
